@@ -48,6 +48,22 @@ theorem escape_no : ∀ (t : Bytes), ∀ x ∈ escape t, x ≠ cLt ∧ x ≠ cQu
     · exact escapeByte_no c x hx
     · exact escape_no cs x hx
 
+/-- text as the serialiser writes it contains no `<` -/
+theorem escapeText_no : ∀ (t : Bytes), ∀ x ∈ escapeText t, x ≠ cLt
+  | [], x, hx => by simp [escapeText_nil] at hx
+  | c :: cs, x, hx => by
+    rw [escapeText_cons, List.mem_append] at hx
+    rcases hx with hx | hx
+    · by_cases hcr : c = 13
+      · subst hcr; rw [escapeTextByte_cr] at hx; revert x; decide
+      · cases hs : isSpecial c with
+        | false =>
+          rw [escapeTextByte_plain hs hcr, List.mem_singleton] at hx
+          subst hx
+          intro h; subst h; simp [isSpecial] at hs
+        | true => rw [escapeTextByte_special hs] at hx; exact (escapeByte_no c x hx).1
+    · exact escapeText_no cs x hx
+
 theorem goodRest_nsAttr (ns : Option Bytes) : GoodRest (nsAttr ns) := by
   cases ns with
   | none => exact Or.inl rfl
@@ -56,13 +72,13 @@ theorem goodRest_nsAttr (ns : Option Bytes) : GoodRest (nsAttr ns) := by
     simp [nsAttr, attrOf]
 
 theorem WN_textEv (st : List Bytes) (x : Bytes) (t : List Ev) (ht : WN st t) (hh : headNotText t = true) :
-    WN st (textEv (escape x) ++ t) := by
+    WN st (textEv (escapeText x) ++ t) := by
   unfold textEv
   split
   · simpa using ht
   · rename_i hne
     simp only [List.cons_append, List.nil_append, WN]
-    exact ⟨hne, fun c hc => (escape_no x c hc).1, hh, ht⟩
+    exact ⟨hne, escapeText_no x, hh, ht⟩
 
 theorem WN_elem (st : List Bytes) (tag : Bytes) (inner t : List Ev) (hg : goodName tag = true)
     (hi : WN (tag :: st) (inner ++ .stop tag :: t)) : WN st (elem tag inner ++ t) := by
@@ -202,7 +218,7 @@ theorem tokenize_write_doc (root : SerRoot) (s : Sch) (v : Val) (hr : root.tagsG
       simpa using this
   | location tag ns =>
     simp only [SerRoot.tagsGood] at hr
-    have key : (∃ b, encodeDoc (.location tag ns) s v = .start tag (nsAttr ns) :: (textEv (escape b) ++ [.stop tag])) ∨
+    have key : (∃ b, encodeDoc (.location tag ns) s v = .start tag (nsAttr ns) :: (textEv (escapeText b) ++ [.stop tag])) ∨
         encodeDoc (.location tag ns) s v = [.start tag (nsAttr ns), .stop tag] := by
       simp only [encodeDoc]
       split
